@@ -31,6 +31,8 @@ RErrCases == {[m |-> m.id, kind |-> m.kind, st |-> 207, ct |-> "xml", body |-> "
 \* a 2xx answer whose body never completes: calls that need nothing from the body return all the same
 StallCases == {[m |-> m.id, kind |-> m.kind, st |-> s, ct |-> "none", body |-> "stalled", place |-> "none"] :
                  m \in {x \in Methods : x.kind = "plain" /\ x.id # "dav.Open"}, s \in {200, 201, 204}}
+EmptyMsCases == {[m |-> m.id, kind |-> m.kind, st |-> 207, ct |-> c, body |-> "emptyms", place |-> "none"] : m \in {x \in Methods : x.kind \in MsKinds}, c \in {"xml", "textxml"}}
+ASSUME \A c \in EmptyMsCases : ErrExpected(c.kind, c) = (c.kind = "ms1")
 ASSUME \A c \in StallCases : ~ErrExpected(c.kind, c)
 ASSUME \A c \in XCases \cup RCases \cup RErrCases : ErrExpected(c.kind, c)
 \* payloads that are well-formed XML but carry an unparsable object: the call must fail, not panic
@@ -42,7 +44,7 @@ ASSUME \A c \in Cases : (c.kind = "plain" /\ Is2xx(c.st)) => ~ErrExpected(c.kind
 ASSUME \A c \in Cases : ~Is2xx(c.st) => ErrExpected(c.kind, c) /\ CodeExpected(c) = c.st
 ASSUME \A c \in Cases : (c.kind \in MsKinds /\ c.st = 207 /\ c.body = "valid" /\ c.place \in {"none", "opt404"}) => ~ErrExpected(c.kind, c)
 ASSUME \A c \in PayloadCases : ErrExpected(c.kind, c)
-ASSUME ndJsonSerialize(IOEnv.OUT \o "/c14.ndjson", SetToSeq(Cases \cup PayloadCases \cup RCases \cup RErrCases \cup StallCases \cup {c \in XCases : \E k \in 1..NProps(c.m) : \E code \in {401, 403, 423, 500, 507} : c.place = XPlace(k, code)}))
+ASSUME ndJsonSerialize(IOEnv.OUT \o "/c14.ndjson", SetToSeq(Cases \cup PayloadCases \cup RCases \cup RErrCases \cup StallCases \cup EmptyMsCases \cup {c \in XCases : \E k \in 1..NProps(c.m) : \E code \in {401, 403, 423, 500, 507} : c.place = XPlace(k, code)}))
 ASSUME PrintT(<<"COUNTS", Cardinality(Cases \cup PayloadCases), Cardinality(Methods)>>)
 VARIABLE x
 Init == x = 0
